@@ -218,6 +218,112 @@ def run(ctx):
                                                                'impl': got}, key={'h': line})
         elif reconnect != 'ok' and reconnect != 'InvalidState':
             ctx.violation('status fallback then reconnect failed: %s' % reconnect, {'origin': origin}, key={'h': line})
+    # ------------------------------------------------------------------ handlers / listeners with side effects
+    # (oracle only) A: a handler reconnects, the final handler disconnects; B: a handler reconnects and
+    # raises, a later handler disconnects; C: a handler reconnects (control: the new connection stays up);
+    # D: a listener queues a packet and disconnects gracefully while the flush fails (an early outgoing
+    # listener raises / the socket fails) -- the exception escapes with `connected` already False
+    from minecraft.networking.packets import serverbound as sbp
+    for trial in range(ctx.scale(40, 400)):
+        kind = 'ABCD'[trial % 4]
+        variant = trial // 4 % 2
+        log = []
+        cfg = {'version': 757, 'script': [('success',), ('keepalive', 5)]}
+        boom = ErrA('boom%d' % trial)
+        with simnet.Net(lambda s: RefServer(s, cfg)) as net:
+            def final(e, info):
+                log.append(('F', type(e).__name__))
+                if kind == 'A' and not any(x[0] == 'F-disc' for x in log):
+                    log.append(('F-disc',))
+                    conn.disconnect(immediate=bool(variant))
+            conn = C.Connection('h', 1, username='u', allowed_versions={757}, handle_exception=final)
+            state = {'fired': False}
+
+            def h1(e, info):
+                log.append(('h1', type(e).__name__))
+                if kind in 'ABC' and not state.get('re'):
+                    state['re'] = True
+                    conn.connect()
+                    if kind == 'B':
+                        raise ErrC('from h1')
+
+            def h2(e, info):
+                log.append(('h2', type(e).__name__))
+                if kind == 'B':
+                    conn.disconnect(immediate=bool(variant))
+            conn.register_exception_handler(h1, ErrA)
+            conn.register_exception_handler(h2, ErrC)
+
+            def on_ka(pkt):
+                if state['fired']:
+                    return
+                state['fired'] = True
+                if kind == 'D':
+                    conn.write_packet(sbp.play.ChatPacket(message='bye'))
+                    conn.disconnect()
+                else:
+                    raise boom
+            conn.register_packet_listener(on_ka, P.clientbound.play.KeepAlivePacket)
+            if kind == 'D':
+                if variant == 0:
+                    def veto(pkt):
+                        raise boom
+                    conn.register_packet_listener(veto, sbp.play.ChatPacket, outgoing=True, early=True)
+                else:
+                    state['break_send'] = True
+            if state.get('break_send'):
+                orig_send = simnet.FakeSocket.send
+
+                def failing_send(self_, data):
+                    if state['fired'] and not state.get('sent_fail'):
+                        state['sent_fail'] = True
+                        raise BrokenPipeError(32, 'Broken pipe')
+                    return orig_send(self_, data)
+                simnet.FakeSocket.send = failing_send
+            try:
+                conn.connect()
+                net.run_threads()
+            finally:
+                if state.get('break_send'):
+                    simnet.FakeSocket.send = orig_send
+            ctx.case(('side-effects', kind, variant))
+            ctx.count('side-effects.' + kind)
+            # when a handler has started a new connection the library deliberately leaves the old transport
+            # alone (the property's "unless" clause; CPython closes the dropped socket object on collection):
+            # only the transport of the connection started last is judged in A, B, C
+            judged = net.sockets[1:] if kind in 'ABC' else net.sockets
+
+            def live_now():
+                return [s_ for s_ in judged if s_.connected and not s_.closed_by_client]
+            live = live_now()
+            slots_clear = conn.networking_thread is None and conn.new_networking_thread is None
+            bad = None
+            if kind == 'C':
+                if not (conn.connected and len(live) == 1 and len(net.sockets) == 2):
+                    bad = 'the connection started by the handler is not up afterwards (connected=%s, open sockets=%d of %d)' % (
+                        conn.connected, len(live), len(net.sockets))
+                else:
+                    conn.disconnect()
+                    net.run_threads()
+                    live = live_now()
+                    slots_clear = conn.networking_thread is None and conn.new_networking_thread is None
+            if not bad and (live or not slots_clear):
+                bad = 'after the dispatch %d socket(s) are still open, thread slots clear=%s (networking_thread=%r new=%r)' % (
+                    len(live), slots_clear, conn.networking_thread, conn.new_networking_thread)
+            if not bad and kind == 'D' and not any(x[0] == 'F' for x in log):
+                bad = 'the exception escaping the listener never reached the final handler: %r' % (log,)
+            if not bad:
+                cfg['script'] = [('success',), ('close',)]
+                try:
+                    conn.connect()
+                    net.run_threads()
+                except Exception as e:
+                    bad = 'the same object cannot connect again: %r' % (e,)
+            if bad:
+                ctx.violation('scenario %s%d (%s): %s' % (kind, variant, {
+                    'A': 'handler reconnects, final handler disconnects', 'B': 'handler reconnects and raises, later handler disconnects',
+                    'C': 'handler reconnects', 'D': 'listener disconnects gracefully, flush fails'}[kind], bad),
+                    {'kind': kind, 'variant': variant, 'log': log[:8]}, key={'kind': 'side-effects', 'scenario': kind, 'variant': variant})
     for line, mo, g in zip(lines, ctx.driver.ask(lines), impl):
         if mo != g:
             ctx.disagree('_handle_exception', line[-200:], mo, g)
